@@ -332,6 +332,12 @@ class Instantiator:
             p, q = a.arg(0), a.arg(1)
             ax += [z3.Implies(z3.And(p > 0, q > 0), z3.And(a > 0, a * UF["gamma"](p + q) == UF["gamma"](p) * UF["gamma"](q)))]
             N("beta(a,b)=G(a)G(b)/G(a+b)")
+        elif fn == "hyp2f1":
+            aa, bb, cc, zz = a.arg(0), a.arg(1), a.arg(2), a.arg(3)
+            # Gauss: 2F1(a,b;c;1) = G(c)G(c-a-b)/(G(c-a)G(c-b)) > 0 for a=1/2, c=3/2, b<=0
+            ax += [z3.Implies(z3.And(aa == z3.RealVal("1/2"), cc == z3.RealVal("3/2"), bb <= 0, zz == 1), a > 0)]
+            ax += [z3.Implies(zz == 0, a == 1)]
+            N("2F1(1/2,b;3/2;1)>0 for b<=0 (Gauss summation); 2F1(.;0)=1")
         elif fn == "kv":
             nu, xx = a.arg(0), a.arg(1)
             ax += [z3.Implies(xx > 0, a > 0)]
@@ -416,7 +422,7 @@ class Instantiator:
         return out
 
 
-def axioms(terms, pairwise=True, structural=True):
-    inst = Instantiator(pairwise=pairwise, structural=structural)
+def axioms(terms, pairwise=True, structural=True, deep_gen=1):
+    inst = Instantiator(pairwise=pairwise, structural=structural, deep_gen=deep_gen)
     ax = inst.new_axioms(list(terms))
     return ax, inst
